@@ -252,3 +252,56 @@ Section Tail.
     | Ok (_, _, s, _, _) => scan_tail (S (length s)) o s
     end.
 End Tail.
+
+(* ---- a history of calls on one Reader ------------------------------------------------------
+   The Reader has one piece of mutable state: Roots() caches the decoded roots (r.roots) when they
+   are non-empty.  DataReader() and IndexReader() return fresh readers over the ReaderAt; Inspect
+   creates its own DataReader and (in the code as it is) never looks at the cache. *)
+Inductive rop := ORoots | ODataReader | OIndexReader | OInspect (validate : bool).
+
+Record rstate := mkrstate { rs_rd : rdr; rs_cache : option (list bytes) }.
+Definition fresh_reader (rd : rdr) : rstate := mkrstate rd None.
+
+Inductive rout :=
+| RRoots (r : res (list bytes))
+| RData (first : bytes)              (* the first bytes the returned DataReader delivers *)
+| RIndex (first : option bytes)      (* None: IndexReader returned nil *)
+| RInspect (r : res stats).
+
+Definition probe_len : N := 16.
+
+Section History.
+  Variable hok : bytes -> bytes -> option bool.
+  Variable hdrdec : bytes -> option (list bytes * N).
+
+  (* Reader.Roots *)
+  Definition reader_roots_st (o : ropts) (file : bytes) (st : rstate) : res (list bytes) * rstate :=
+    match rs_cache st with
+    | Some roots => (Ok roots, st)
+    | None =>
+      match read_header hdrdec (o_maxh o) (data_window (rs_rd st) file) with
+      | Err e => (Err e, st)
+      | Ok (roots, _, _, _) =>
+          (Ok roots, mkrstate (rs_rd st) (match roots with [] => None | _ => Some roots end))
+      end
+    end.
+
+  Definition rstep (o : ropts) (file : bytes) (st : rstate) (op : rop) : rout * rstate :=
+    match op with
+    | ORoots => let (r, st') := reader_roots_st o file st in (RRoots r, st')
+    | ODataReader => (RData (take probe_len (data_window (rs_rd st) file)), st)
+    | OIndexReader =>
+        (RIndex (if (r_version (rs_rd st) =? 1) || negb (has_index (r_hdr (rs_rd st))) then None
+                 else Some (take probe_len (drop (h_ioff (r_hdr (rs_rd st))) file))), st)
+    | OInspect v => (RInspect (inspect hok hdrdec o (rs_rd st) file v), st)
+    end.
+
+  Fixpoint rrun (o : ropts) (file : bytes) (st : rstate) (ops : list rop) : list rout * rstate :=
+    match ops with
+    | [] => ([], st)
+    | op :: ops' =>
+        let (out, st') := rstep o file st op in
+        let (outs, st'') := rrun o file st' ops' in
+        (out :: outs, st'')
+    end.
+End History.
